@@ -40,6 +40,25 @@ def adversary(n, r):
     return xs
 
 
+def de_bruijn(k, n):
+    """the lexicographically least de Bruijn sequence B(k, n) (every word of length n over k symbols occurs cyclically)"""
+    a = [0] * (k * n)
+    seq = []
+
+    def db(t, q):
+        if t > n:
+            if n % q == 0:
+                seq.extend(a[1:q + 1])
+        else:
+            a[t] = a[t - q]
+            db(t + 1, q)
+            for j in range(a[t - q] + 1, k):
+                a[t] = j
+                db(t + 1, t)
+    db(1, 1)
+    return seq
+
+
 def gen_cases(ctx):
     global T2_ALL
     T2_ALL = ctx.thorough
@@ -67,6 +86,18 @@ def gen_cases(ctx):
                 pr = (p, 0, 0, 2.0 if ind == "BB" else 0.0)
                 cases.append(Case("T_%s_p%d_%d" % (ind, p, j), [new_op(0, ind, pr)] + [("n", 0, x) for x in seq],
                                   meta={"ind": ind, "p": p, "fam": "T", "n": 12}))
+    # family D (deterministic, seed-independent): de Bruijn sequences over three ordered symbols — every word of length 7
+    # (thorough: 4 symbols, length 6) occurs, at every phase of the ring cursor: every order in which equal and distinct
+    # extremes can enter and leave a window of up to 5 slots is exercised for Minimum and Maximum
+    dbk, dbn = (3, 7) if not ctx.thorough else (4, 6)
+    db = de_bruijn(dbk, dbn)
+    syms = [1.0, 5.0, 7.0, -3.0][:dbk]
+    for ind in ("MIN", "MAX"):
+        for p in range(1, 6):
+            for phase in range(p):
+                seq = [syms[0]] * phase + [syms[a] for a in db + db[:dbn - 1]]
+                cases.append(Case("D_%s_p%d_%d" % (ind, p, phase), [new_op(0, ind, (p, 0, 0, 0.0))] + [("n", 0, x) for x in seq],
+                                  meta={"ind": ind, "p": p, "fam": "D", "n": len(seq)}))
     # family B
     nb = 3 if not ctx.thorough else 12
     for ind in KINDS7:
@@ -98,8 +129,8 @@ def gen_cases(ctx):
     cases.append(Case("K7_SMA_adversary", [new_op(0, "SMA", (2, 0, 0, 0.0))] + [("n", 0, x) for x in adv], dump=(),
                       meta={"ind": "SMA", "p": 2, "fam": "K7", "n": len(adv)}))
     k7 = [c for c in cases if c.meta['fam'] == 'K7']
-    rest = [c for c in cases if c.meta['fam'] != 'K7' and c.meta['p'] <= 64]
-    big = [c for c in cases if c.meta['fam'] != 'K7' and c.meta['p'] > 64]
+    rest = [c for c in cases if c.meta['fam'] not in ('K7', 'D') and c.meta['p'] <= 64]
+    big = [c for c in cases if c.meta['fam'] != 'K7' and (c.meta['p'] > 64 or c.meta['fam'] == 'D')]
     return with_scaled(rest, r) + big + k7
 
 
